@@ -613,9 +613,13 @@ func (s *Session) readCompressed(rw io.ReadWriter, p *Proposal) (err error) {
 		for {
 			_, ok := <-statusUpdate
 			if s.statusUpdater != nil {
+				transferred := int(atomic.LoadInt64(&received))
+				if transferred > p.compressedSize {
+					transferred = p.compressedSize // The remote is sending more than it proposed.
+				}
 				s.statusUpdater.UpdateStatus(Status{
 					Receiving:        p,
-					BytesTransferred: int(atomic.LoadInt64(&received)),
+					BytesTransferred: transferred,
 					BytesTotal:       p.compressedSize,
 					Done:             !ok,
 				})
